@@ -137,6 +137,7 @@ template<typename K_, size_t E, typename F>
 struct EFTraits : TraitsBase<K_, E> {
     using K = K_;
     using Index = EFOpen<K, E, F>;
+    static constexpr bool allow_16m = true;
     static Index *build(const std::vector<K> &d) { return new Index(d.begin(), d.end()); }
     static Approx search(const Index &i, K q) { auto r = i.search(q); return Approx{r.pos, r.lo, r.hi}; }
     static size_t segments(const Index &i) { return i.segments_count(); }
